@@ -107,6 +107,12 @@ fn variant_bytes(variant: &str, user: &str, pw: &str) -> DynFn {
 }
 
 pub fn scenario(cfgname: &str, startup: (&str, &str, &str), variant: &str, admin_only: bool) -> Scenario {
+    scenario_peer(cfgname, startup, variant, admin_only, false)
+}
+
+/// `peer`: a legitimate client (alice, right password) logs in and runs a statement concurrently with the
+/// attacker's connection: neither may influence the other's verdict.
+pub fn scenario_peer(cfgname: &str, startup: (&str, &str, &str), variant: &str, admin_only: bool, peer: bool) -> Scenario {
     let (sname, user, db) = startup;
     let mut pool = PoolCfg::simple("db", "transaction", 2, 1, 0);
     let mut cfg;
@@ -176,14 +182,24 @@ pub fn scenario(cfgname: &str, startup: (&str, &str, &str), variant: &str, admin
     s = s.send(wire::query(&format!("SELECT 'in' /*{}*/", tag(0, 0, 0))), "Q tagged (sent at once)");
     s = s.wait(Cond::ZOrClosed(2));
     s = s.close(CloseKind::HardDrop);
+    let mut actors = vec![s.actor(), env("env", env_steps)];
+    if peer {
+        let ppw = real_password(cfgname, "alice").unwrap_or("alicepw");
+        let p = Script::new("peer")
+            .wait(Cond::ActorsDone(vec![1]))
+            .connect("alice", "db", Some(ppw))
+            .q(&format!("SELECT 'peer' /*{}*/", tag(2, 0, 0)))
+            .terminate();
+        actors.push(p.actor());
+    }
     Scenario {
-        name: format!("C09 cfg={} startup={} variant={} admin_only={}", cfgname, sname, variant, admin_only),
+        name: format!("C09 cfg={} startup={} variant={} admin_only={}{}", cfgname, sname, variant, admin_only, if peer { " peer=yes" } else { "" }),
         toml: cfg.toml(),
         alt_tomls: vec![],
         servers,
-        actors: vec![s.actor(), env("env", env_steps)],
+        actors,
         opts: Opts { horizon_ms: 4000, ..Opts::default() },
-        meta: serde_json::json!({"cfg": cfgname, "user": user, "db": db, "variant": variant, "admin_only": admin_only}),
+        meta: serde_json::json!({"cfg": cfgname, "user": user, "db": db, "variant": variant, "admin_only": admin_only, "peer": peer}),
     }
 }
 
@@ -287,6 +303,22 @@ pub fn oracle(sc: &Scenario, out: &Outcome) -> Vec<Violation> {
     if !auth_ok && tagged_at_backend {
         vs.push(v("C09.bytes-before-auth", format!("C09.bytes-before-auth:{}", ctx), "a statement of an unauthenticated client reached a server".into()));
     }
+    if m["peer"].as_bool().unwrap_or(false) {
+        let peer_must = must_admit(cfgname, "alice", "db", "correct", admin_only) == Some(true);
+        let pm = client_msgs(log, 2);
+        let peer_ok = pm.iter().any(|(_, m)| m.code == b'R' && m.body == 0i32.to_be_bytes());
+        let peer_ran = log.iter().any(|e| matches!(&e.rec, Rec::BExec { sql, .. } if find_tag(sql.as_bytes()).map(|t| t.c == 2).unwrap_or(false)));
+        if peer_must && !(peer_ok && peer_ran) {
+            vs.push(v(
+                "C09.refused",
+                format!("C09.peer-refused:cfg={}:attacker={}:variant={}", cfgname, user, variant),
+                format!("a client with valid credentials logging in next to the attacker's connection was not served ({}); it received {}", ctx, pm.iter().map(|(_, m)| describe(m)).collect::<Vec<_>>().join(" ")),
+            ));
+        }
+        if !peer_must && peer_ok {
+            vs.push(v("C09.admitted", format!("C09.peer-admitted:cfg={}:attacker={}:variant={}", cfgname, user, variant), format!("the peer client was admitted although the reference predicate refuses it ({})", ctx)));
+        }
+    }
     match want {
         Some(false) => {
             if auth_ok {
@@ -334,13 +366,25 @@ pub fn build(tier: &str) -> SimCheck {
             }
         }
     }
+    // a legitimate login racing the attacker's connection, all interleavings with <= 2 deviations
+    for cfgname in CONFIGS {
+        for st in STARTUPS {
+            for variant in VARIANTS {
+                let key = st.0 == "alice@db" || st.0 == "admin@pgcat" || (*cfgname == "authquery-two" && st.0 == "bob@db");
+                if !thorough && !(key && ["correct", "wrong", "other-user", "replayed-salt", "query-instead", "nothing", "garbage"].contains(variant)) {
+                    continue;
+                }
+                scenarios.push(scenario_peer(cfgname, *st, variant, false, true));
+            }
+        }
+    }
     scenarios.push(salt_scenario());
     SimCheck {
         scenarios,
         oracle: Box::new(oracle),
-        bound: 0,
+        bound: 2,
         limits: Limits { max_wall_s: if thorough { 1500.0 } else { 50.0 }, ..Default::default() },
-        rule: "scenario = auth configuration (cleartext, trust, auth_query with hash present / absent / server down at pool creation / changed later / two users each with a hash of its own) x startup (db,user) pair (configured, other user, unknown user/db, admin db in two spellings, non-admin user on the admin db, user only) x message sent in place of PasswordMessage (18 kinds incl. replayed salt, truncated, oversized, wrong type) followed at once by a tagged query x shutting down or not; verdict compared with the reference admission predicate; plus 96 connections opened up to the MD5 challenge: no salt issued twice".into(),
+        rule: "scenario = auth configuration (cleartext, trust, auth_query with hash present / absent / server down at pool creation / changed later / two users each with a hash of its own) x startup (db,user) pair (configured, other user, unknown user/db, admin db in two spellings, non-admin user on the admin db, user only) x message sent in place of PasswordMessage (18 kinds incl. replayed salt, truncated, oversized, wrong type) followed at once by a tagged query x shutting down or not; verdict compared with the reference admission predicate; the same with a legitimate client logging in and running a statement concurrently (all interleavings with <= 2 deviations: neither connection may change the other's verdict); plus 96 connections opened up to the MD5 challenge: no salt issued twice".into(),
         assumptions: vec!["TLS startup not exercised".into()],
     }
 }
